@@ -594,7 +594,8 @@ func conform(t reflect.Type, values []reflect.Value) (out []reflect.Value, err e
 			v.SetUint(n)
 
 		case reflect.Bool:
-			v = reflect.ValueOf(true)
+			v = reflect.New(t).Elem() // Of the target type, which may be a named bool type.
+			v.SetBool(true)
 
 		case reflect.Float32, reflect.Float64:
 			n, err := strconv.ParseFloat(v.String(), sizeOfKind(kind))
@@ -734,6 +735,11 @@ func setField(tokens []lexer.Token, strct reflect.Value, field structLexerField,
 			fieldValue, err = conform(sliceElemType, fieldValue)
 			if err != nil {
 				return Wrapf(pos, err, "failed to conform")
+			}
+			for _, v := range fieldValue {
+				if !v.Type().AssignableTo(sliceElemType) {
+					return Errorf(pos, "value %q is not correct type %s", v, sliceElemType)
+				}
 			}
 			f.Set(reflect.Append(f, fieldValue...))
 		}
